@@ -291,6 +291,13 @@ func VerifC12Token() {
 		tok.State = vfState(vf.String("state", 8))
 	}
 	st := &vfTStore{}
+	if vf.Bool("this-token-value-was-stored-before-with-an-earlier-creation-time") {
+		tok.CreationTime = timestamppb.New(created.Add(-time.Hour))
+		if err := tok.Store(ctx, st, nodeenrollment.WithStorageWrapper(vfWrapper())); err != nil {
+			panic(err)
+		}
+		tok.CreationTime = timestamppb.New(created)
+	}
 	err := tok.Store(ctx, st, nodeenrollment.WithStorageWrapper(vfWrapper()))
 	vf.Assert("store-ok", err == nil)
 	stored := st.last.(*ServerLedActivationToken)
@@ -318,6 +325,15 @@ func VerifC12Token() {
 		vf.Assert("loads-only-with-the-same-wrapper", which == 0)
 		vf.Assert("transplanted-field-does-not-open", !transplant)
 		vf.Assert("round-trip", vf.TimeEq(got.CreationTime.AsTime(), created))
+		// the loaded value, given a new creation time, stored again and loaded again: exactly what was stored
+		got.CreationTime = timestamppb.New(created.Add(time.Minute))
+		vf.Assert("re-store-ok", got.Store(ctx, st, nodeenrollment.WithStorageWrapper(vfWrapper())) == nil)
+		vf.Assert("re-stored-creation-time-not-in-clear", st.last.(*ServerLedActivationToken).CreationTime == nil)
+		again, aerr := LoadServerLedActivationToken(ctx, st, "token-id", vfLoadOpts(0)...)
+		vf.Assert("re-stored-value-loads", aerr == nil)
+		if aerr == nil {
+			vf.Assert("re-stored-round-trip", vf.TimeEq(again.CreationTime.AsTime(), created.Add(time.Minute)))
+		}
 	} else {
 		vf.Reach("load-refused")
 		vf.Assert("same-wrapper-loads", vf.Not(vf.And(which == 0, !transplant)))
